@@ -550,23 +550,78 @@ func ruleClosedGuard(c *Ctx, m *multiModel) {
 		return
 	}
 	nSel := 0
+	// the blocking selects of the handle: in its methods, or in small helpers the methods call (submit(req) bool,
+	// await(ch) (resp, ok)). g is the method, site the instruction in g (the select itself or the call of the helper).
+	type selSite struct {
+		g    *ssa.Function
+		site ssa.Instruction
+		s    *ssa.Select
+	}
+	var sites []selSite
+	isMethod := map[*ssa.Function]bool{}
 	for _, f := range methods {
-		for _, b := range f.Blocks {
+		isMethod[f] = true
+	}
+	for _, g := range methods {
+		for _, b := range g.Blocks {
 			for _, ins := range b.Instrs {
-				s, ok := ins.(*ssa.Select)
-				if !ok || !s.Blocking {
+				if s, ok := ins.(*ssa.Select); ok && s.Blocking {
+					// a helper method's select is attributed to the methods that call it (below), unless nobody does
+					called := false
+					for _, cs := range p.CallSitesOf(g) {
+						if isMethod[cs.Fn] {
+							called = true
+						}
+					}
+					if !called {
+						sites = append(sites, selSite{g, s, s})
+					}
+				}
+				call, ok := ins.(*ssa.Call)
+				if !ok {
 					continue
 				}
+				h := call.Call.StaticCallee()
+				if h == nil || !p.InRepo(h) || len(h.Blocks) == 0 || h == g || eng.PkgPathOf(h) != eng.PkgPathOf(g) {
+					continue
+				}
+				for _, hb := range h.Blocks {
+					for _, hi := range hb.Instrs {
+						if s, ok := hi.(*ssa.Select); ok && s.Blocking {
+							sites = append(sites, selSite{g, call, s})
+						}
+					}
+				}
+			}
+		}
+	}
+	hField := func(v ssa.Value) (string, bool) {
+		// local view first (a construct-only field is transparent for interprocedural origins), then through helper
+		// parameters and results
+		for _, oo := range []eng.OriginOpts{eng.Plain, {ThroughConvert: true, Interproc: true, Stop: func(x ssa.Value) bool {
+			t, _, _, ok := eng.FieldLoad(x)
+			return ok && t == H
+		}}} {
+			for _, o := range p.Origins(v, oo) {
+				if t, fl, _, ok := eng.FieldLoad(o); ok && t == H {
+					return fl, true
+				}
+			}
+		}
+		return "", false
+	}
+	for _, ss := range sites {
+		g, f, s := ss.g, ss.s.Parent(), ss.s
+		{
+			{
 				sharedK, closeK := -1, -1
 				var sharedFieldName string
 				for k, st := range s.States {
-					for _, o := range p.Origins(st.Chan, eng.Plain) {
-						if t, fl, _, ok := eng.FieldLoad(o); ok && t == H {
-							if fl == closeField && st.Dir == types.RecvOnly {
-								closeK = k
-							} else if fl != closeField {
-								sharedK, sharedFieldName = k, fl
-							}
+					if fl, ok := hField(st.Chan); ok {
+						if fl == closeField && st.Dir == types.RecvOnly {
+							closeK = k
+						} else if fl != closeField {
+							sharedK, sharedFieldName = k, fl
 						}
 					}
 				}
@@ -574,7 +629,7 @@ func ruleClosedGuard(c *Ctx, m *multiModel) {
 					continue
 				}
 				nSel++
-				key := short(f)
+				key := short(g)
 				c.CheckAt("CLOSEDGUARD", key+":close-arm", s, closeK >= 0, "the handle blocks on the shared channel without also waiting on its close channel: Close does not unblock it")
 				// idiom 1: shared channel niled by Close under the handle mutex, and loaded here under the same mutex
 				idiom1 := false
@@ -590,7 +645,10 @@ func ruleClosedGuard(c *Ctx, m *multiModel) {
 						}
 					}
 					loadedLocked := true
-					for _, o := range p.Origins(s.States[sharedK].Chan, eng.Plain) {
+					for _, o := range p.Origins(s.States[sharedK].Chan, eng.OriginOpts{ThroughConvert: true, Interproc: true, Stop: func(x ssa.Value) bool {
+						t, _, _, ok := eng.FieldLoad(x)
+						return ok && t == H
+					}}) {
 						if u, ok := o.(*ssa.UnOp); ok {
 							if !l.Held(u).Has(hLock) {
 								loadedLocked = false
@@ -599,24 +657,85 @@ func ruleClosedGuard(c *Ctx, m *multiModel) {
 					}
 					idiom1 = niled && loadedLocked
 				}
-				// idiom 2: dominating non-blocking poll of the close channel whose ready edge leaves without reaching s
+				// idiom 2: dominating non-blocking poll of the close channel whose ready edge leaves without reaching the
+				// select — written in the method, or as a call of a predicate helper (closedNow(ch) bool)
 				idiom2 := false
-				for _, bb := range f.Blocks {
+				for _, bb := range g.Blocks {
 					for _, i2 := range bb.Instrs {
-						poll, ok := i2.(*ssa.Select)
-						if !ok || poll.Blocking || !eng.Dominates(poll, s) {
-							continue
-						}
-						for k, st := range poll.States {
-							if st.Dir != types.RecvOnly {
+						switch poll := i2.(type) {
+						case *ssa.Select:
+							if poll.Blocking || !eng.Dominates(poll, ss.site) {
 								continue
 							}
-							isClose := p.AnyFrom(st.Chan, eng.Plain, func(v ssa.Value) bool { return eng.IsFieldLoad(v, H, closeField) })
-							if !isClose {
+							for k, st := range poll.States {
+								if st.Dir != types.RecvOnly {
+									continue
+								}
+								if fl, ok := hField(st.Chan); !ok || fl != closeField {
+									continue
+								}
+								if e, ok := selectArmEdge(poll, k); ok {
+									if !eng.ReachBlocks(e.To, nil)[ss.site.Block()] {
+										idiom2 = true
+									}
+								}
+							}
+						case *ssa.Call:
+							ph := poll.Call.StaticCallee()
+							if ph == nil || !p.InRepo(ph) || len(ph.Blocks) == 0 || !eng.Dominates(poll, ss.site) || poll == ss.site {
 								continue
 							}
-							if e, ok := selectArmEdge(poll, k); ok {
-								if !eng.ReachBlocks(e.To, nil)[s.Block()] {
+							if ph.Signature.Results().Len() != 1 || ph.Signature.Results().At(0).Type().String() != "bool" {
+								continue
+							}
+							// the helper polls (non-blocking) a channel that is, at this call, the handle's close channel, and
+							// answers true exactly on the ready arm
+							isPoll := false
+							for _, pb := range ph.Blocks {
+								for _, pi := range pb.Instrs {
+									ps, ok := pi.(*ssa.Select)
+									if !ok || ps.Blocking {
+										continue
+									}
+									for k, st := range ps.States {
+										if st.Dir != types.RecvOnly {
+											continue
+										}
+										if fl, ok := hField(st.Chan); !ok || fl != closeField {
+											continue
+										}
+										e, ok := selectArmEdge(ps, k)
+										if !ok {
+											continue
+										}
+										readyTrue, otherFalse := true, true
+										reach := eng.ReachBlocks(e.To, nil)
+										for _, r := range eng.Returns(ph) {
+											cst, isC := retVal(p, r).(*ssa.Const)
+											if !isC || cst.Value == nil {
+												readyTrue, otherFalse = false, false
+												continue
+											}
+											isT := cst.Value.ExactString() == "true"
+											if reach[r.Block()] && !isT {
+												readyTrue = false
+											}
+											if !reach[r.Block()] && isT {
+												otherFalse = false
+											}
+										}
+										if readyTrue && otherFalse {
+											isPoll = true
+										}
+									}
+								}
+							}
+							if !isPoll {
+								continue
+							}
+							te, _ := eng.BoolEdges(g, func(v ssa.Value) bool { return v == ssa.Value(poll) })
+							for e := range te {
+								if !eng.ReachBlocks(e.To, nil)[ss.site.Block()] {
 									idiom2 = true
 								}
 							}
@@ -645,33 +764,74 @@ func ruleClosedGuard(c *Ctx, m *multiModel) {
 						}
 					}
 					if e, okE := selectArmEdge(s, sharedK); okE && recvVal != nil {
-						fromRecv := func(v ssa.Value) bool {
-							return p.AnyFrom(v, eng.OriginOpts{ThroughConvert: true, ThroughFieldLoad: true}, func(x ssa.Value) bool { return x == recvVal })
-						}
-						starts := []eng.Point{edgePoint(e)}
-						if okVal != nil {
-							if te, _ := eng.BoolEdges(f, func(v ssa.Value) bool { return v == okVal }); len(te) > 0 {
-								starts = nil
-								for _, x := range sortedEdges(te) {
-									starts = append(starts, edgePoint(x))
+						// deliverFrom: from the given start points in fn, every return hands on a value derived from src and
+						// nothing closes it
+						deliverFrom := func(fn *ssa.Function, starts []eng.Point, src ssa.Value) (bool, string) {
+							fromSrc := func(v ssa.Value) bool {
+								if rv := p.ReachingStore(v, nil); rv != nil {
+									v = rv
 								}
+								return p.AnyFrom(v, eng.OriginOpts{ThroughConvert: true, ThroughFieldLoad: true}, func(x ssa.Value) bool { return x == src })
 							}
-						}
-						okDel, why := true, ""
-						for _, st := range starts {
-							for _, ins := range eng.ReachableInstrs(st, func(ssa.Instruction) bool { return true }, nil) {
-								switch x := ins.(type) {
-								case *ssa.Return:
-									if len(x.Results) == 0 || !fromRecv(x.Results[0]) {
-										okDel, why = false, "returns at "+p.IPos(x)+" without the received value"
-									}
-								case *ssa.Call:
-									if eng.MethodName(&x.Call) == "Close" {
-										if r := eng.Receiver(&x.Call); r != nil && fromRecv(r) {
-											okDel, why = false, "closes it at "+p.IPos(x)
+							for _, st := range starts {
+								for _, ins := range eng.ReachableInstrs(st, func(ssa.Instruction) bool { return true }, nil) {
+									switch x := ins.(type) {
+									case *ssa.Return:
+										rv := ssa.Value(nil)
+										if len(x.Results) > 0 {
+											rv = x.Results[0]
+											if sv := p.ReachingStore(rv, x); sv != nil {
+												rv = sv
+											}
+										}
+										if rv == nil || !fromSrc(rv) {
+											return false, "returns at " + p.IPos(x) + " without the received value"
+										}
+									case *ssa.Call:
+										if eng.MethodName(&x.Call) == "Close" {
+											if r := eng.Receiver(&x.Call); r != nil && fromSrc(r) {
+												return false, "closes it at " + p.IPos(x)
+											}
 										}
 									}
 								}
+							}
+							return true, ""
+						}
+						okStarts := func(fn *ssa.Function, okv ssa.Value, dflt eng.Point) []eng.Point {
+							if okv != nil {
+								if te, _ := eng.BoolEdges(fn, func(v ssa.Value) bool { return v == okv }); len(te) > 0 {
+									var out []eng.Point
+									for _, x := range sortedEdges(te) {
+										out = append(out, edgePoint(x))
+									}
+									return out
+								}
+							}
+							return []eng.Point{dflt}
+						}
+						okDel, why := deliverFrom(f, okStarts(f, okVal, edgePoint(e)), recvVal)
+						if okDel && f != g {
+							// the helper handed it to the method: the method hands it on to its caller
+							call := ss.site.(*ssa.Call)
+							var res0, resOK ssa.Value = call, nil
+							if call.Call.Signature().Results().Len() > 1 {
+								res0 = nil
+								for _, r := range *call.Referrers() {
+									if ex, isEx := r.(*ssa.Extract); isEx {
+										if ex.Index == 0 {
+											res0 = ex
+										}
+										if ex.Type().String() == "bool" {
+											resOK = ex
+										}
+									}
+								}
+							}
+							if res0 == nil {
+								okDel, why = false, "ignores what "+short(f)+" received"
+							} else {
+								okDel, why = deliverFrom(g, okStarts(g, resOK, eng.After(call)), res0)
 							}
 						}
 						c.CheckAt("DELIVER", key+":received-connection-is-handed-to-the-caller", s, okDel, "after taking a connection from the shared channel the handle "+why+": a connection that was already handed to this (possibly just released) handle is lost — no other handle can receive it any more")
@@ -690,7 +850,38 @@ func ruleClosedGuard(c *Ctx, m *multiModel) {
 							v, ok := ins.(*ssa.Select)
 							return ok && ins != ssa.Instruction(s) && len(v.States) > 0
 						}
-						okA, bad := eng.MustPassBefore(edgePoint(e), isBareRecv, isSel)
+						var okA bool
+						var bad ssa.Instruction
+						if f == g {
+							okA, bad = eng.MustPassBefore(edgePoint(e), isBareRecv, isSel)
+						} else {
+							// in the helper: the send arm leads to "true" returns only, with no further select; in the method:
+							// from the helper's true result the answer is awaited unconditionally
+							okA = true
+							if sel := eng.ReachableInstrs(edgePoint(e), isSel, nil); len(sel) > 0 {
+								okA, bad = false, sel[0]
+							}
+							reach := eng.ReachBlocks(e.To, nil)
+							for _, r := range eng.Returns(f) {
+								cst, isC := retVal(p, r).(*ssa.Const)
+								isT := isC && cst.Value != nil && cst.Value.ExactString() == "true"
+								if reach[r.Block()] != isT {
+									okA, bad = false, r
+								}
+							}
+							if okA {
+								call := ss.site.(*ssa.Call)
+								te, _ := eng.BoolEdges(g, func(v ssa.Value) bool { return v == ssa.Value(call) })
+								if len(te) == 0 {
+									okA, bad = false, call
+								}
+								for _, x := range sortedEdges(te) {
+									if ok2, b2 := eng.MustPassBefore(edgePoint(x), isBareRecv, isSel); !ok2 {
+										okA, bad = false, b2
+									}
+								}
+							}
+						}
 						c.CheckAt("DELIVER", key+":taken-request-is-awaited-unconditionally", s, okA, fmt.Sprintf("after its read request was taken the handle does not simply wait for the answer (%s): if it gives up, the datagram the reader has already taken from the socket for it is lost", p.IPos(bad)))
 					}
 				}
